@@ -24,7 +24,9 @@ type MemStore struct {
 	FailSetAt, FailGetAt, FailDeleteAt int
 	// FailWriteAt: 1-based index over Set+Delete+Clear calls.
 	FailWriteAt int
-	writes      int
+	// FailWriteFrom: every write from this 1-based index on fails (a store that stays broken).
+	FailWriteFrom int
+	writes        int
 	// OnWrite is called (without the lock) after every successful write with the write's ordinal.
 	OnWrite func(n int, op string, key string)
 	// Injected counts injected errors actually returned.
@@ -58,7 +60,7 @@ func (s *MemStore) wrote(op, key string) (int, func(int, string, string)) {
 }
 
 func (s *MemStore) failWrite() bool {
-	if s.FailWriteAt > 0 && s.writes+1 == s.FailWriteAt {
+	if (s.FailWriteAt > 0 && s.writes+1 == s.FailWriteAt) || (s.FailWriteFrom > 0 && s.writes+1 >= s.FailWriteFrom) {
 		s.writes++
 		s.Injected++
 		return true
